@@ -1,248 +1,306 @@
 //! child of `strip` (appended `mod` line in the scratch copy): C06 — the Write contract of
 //! the strip stream under every pattern of short writes and errors of the inner writer.
-#![allow(dead_code, unused_imports, missing_docs, unreachable_pub, clippy::all)]
+//!
+//! Modular: `next_bytes` is replaced (#[kani::stub]) by a recording stand-in that returns an
+//! arbitrary result of the shape its verified contract guarantees (verus:strip_scan::next_bytes).
+//! `write`, `write_all`, `write_fmt` never look at byte values, so what is verified here — for
+//! every buffer length up to N, every carried state, every scanner answer and every inner-writer
+//! outcome — is their routing of slices, counts, states and errors.  That the routed pieces are
+//! the *visible* bytes and the routed states the *model* states is the scanner's contract.
+#![allow(dead_code, unused_imports, missing_docs, unreachable_pub, clippy::all, static_mut_refs)]
 use super::*;
-use crate::stream::verif_kani_mock::{Mock, CAP};
-use crate::verif_kani::spec_strip::*;
-use crate::verif_kani::spec_vt::*;
+use crate::adapter::verif_kani_strip_scan::{strip_bytes_in_state, strip_bytes_state, ScanCall, REC, REC_MAX, REC_N};
 use crate::verif_kani::util::*;
 use crate::verif_kani::vk;
 use anstyle_parse::state::State;
+use std::io::ErrorKind;
 use std::io::Write as _;
 
-/// S3 fold: visible bytes of `b[..len]` from (s0, u0) into `out`; returns (count, state, accumulator)
-fn visible(s0: State, u0: u8, b: &[u8], len: usize, out: &mut [u8; CAP]) -> (usize, State, u8) {
-    let mut s = s0;
-    let mut u = u0;
-    let mut n = 0;
-    let mut i = 0;
-    while i < len {
-        let t = strip_step(s, u, b[i]);
-        if t.2 {
-            out[n] = b[i];
-            n += 1;
+/// the inner writer, recording: one nondeterministic outcome per call
+struct RecWriter {
+    calls: usize,
+    /// (ptr, len) of the slice handed to each call
+    args: [(usize, usize); 4],
+    /// Some(k): accepted k bytes; None: failed with `kind`
+    outcomes: [Option<usize>; 4],
+    kind: ErrorKind,
+}
+
+impl RecWriter {
+    fn new(kind: ErrorKind) -> Self {
+        RecWriter { calls: 0, args: [(0, 0); 4], outcomes: [None; 4], kind }
+    }
+}
+
+impl std::io::Write for RecWriter {
+    fn write(&mut self, buf: &[u8]) -> std::io::Result<usize> {
+        let i = self.calls;
+        self.calls += 1;
+        if i < 4 {
+            self.args[i] = (buf.as_ptr() as usize, buf.len());
         }
-        s = t.0;
-        u = t.1;
-        i += 1;
-    }
-    (n, s, u)
-}
-
-fn log_is(m: &Mock, want: &[u8; CAP], n: usize) -> bool {
-    if m.len != n || m.overflow {
-        return false;
-    }
-    let mut i = 0;
-    while i < CAP {
-        if i < n && m.log[i] != want[i] {
-            return false;
+        if vk::any_bool() {
+            if i < 4 {
+                self.outcomes[i] = None;
+            }
+            return Err(self.kind.into());
         }
-        i += 1;
+        let k = vk::any_usize_in(0, buf.len());
+        if i < 4 {
+            self.outcomes[i] = Some(k);
+        }
+        Ok(k)
     }
-    true
+    fn flush(&mut self) -> std::io::Result<()> {
+        Ok(())
+    }
 }
 
-fn any_buf<const N: usize>() -> ([u8; N], usize) {
-    let mut buf = [0u8; N];
-    let mut i = 0;
-    while i < N {
-        buf[i] = vk::any_u8();
-        i += 1;
-    }
-    (buf, vk::any_usize_in(0, N))
+fn rec(i: usize) -> ScanCall {
+    unsafe { REC[i] }
 }
 
-/// one `write` call from the initial state, any script (<= 2 misbehaving inner calls), buffer <= N
-fn write_onecall<const N: usize>() {
-    let (buf, len) = any_buf::<N>();
+fn rec_n() -> usize {
+    unsafe { REC_N }
+}
+
+/// one call of the private `write` — all buffer lengths <= N, all carried states, all scanner
+/// answers, all inner outcomes (one harness per error kind: io::Error is costly in CBMC)
+fn write_plumbing<const N: usize>(kind: ErrorKind) {
+    let buf = [0u8; N];
+    let len = vk::any_usize_in(0, N);
     let input = &buf[..len];
-    let mut stream = StripStream::new(Mock::new(2));
-    let r = stream.write(input);
-    let locks = stream.raw.locks;
-    let strip_state = stream.state.clone();
-    let mock = stream.into_inner();
-    match &r {
-        Ok(n) => {
-            let n = *n;
-            assert!(n <= len, "write reports a count no larger than the buffer");
-            // exactly the visible bytes of the consumed prefix were delivered
-            let mut want = [0u8; CAP];
-            let (cnt, _, _) = visible(State::Ground, 0, &buf, n, &mut want);
-            assert!(log_is(&mock, &want, cnt), "write delivered exactly the visible bytes of the prefix it reports as consumed");
-            // and the carried state is the state after that prefix: the resubmitted tail is stripped as in one pass
-            let mut a = strip_state;
-            let mut b = StripBytes::new();
-            b.strip_next(&buf[..n]).last();
-            let mut out_a = [0u8; CAP];
-            let mut na = 0;
-            for p in a.strip_next(&buf[n..len]) {
-                for x in p {
-                    out_a[na] = *x;
-                    na += 1;
+    let base = input.as_ptr() as usize;
+    let entry = any_state();
+    let mut st = strip_bytes_in_state(entry);
+    let mut w = RecWriter::new(kind);
+    let r = write(&mut w, &mut st, input);
+    let fin = strip_bytes_state(&st);
+
+    assert!(rec_n() >= 1, "write scans the buffer");
+    let c0 = rec(0);
+    assert!(c0.in_ptr == base && c0.in_len == len && c0.in_state == entry, "write scans the whole buffer from the carried state");
+    if c0.n == 0 {
+        // nothing visible in the buffer
+        assert!(w.calls == 0, "write hands nothing to the inner writer when the buffer holds no visible byte");
+        assert!(matches!(r, Ok(n) if n == len), "write consumes a buffer without visible bytes entirely");
+        assert!(fin == c0.out_state && rec_n() == 1, "write keeps the scanner's state");
+    } else {
+        assert!(w.calls == 1, "write makes exactly one inner write per call");
+        assert!(w.args[0] == (base + c0.k, c0.n), "write hands exactly the next visible run to the inner writer");
+        match w.outcomes[0] {
+            Some(k) if k == c0.n => {
+                assert!(matches!(r, Ok(n) if n == c0.k + c0.n), "write reports the bytes up to the end of the delivered run");
+                assert!(fin == c0.out_state && rec_n() == 1, "write keeps the scanner's state after a full inner write");
+            }
+            Some(k) => {
+                let off = c0.k + k;
+                assert!(matches!(r, Ok(n) if n == off), "after a short inner write, write reports exactly the bytes up to the last accepted one");
+                assert!(off <= len, "write reports a count no larger than the buffer");
+                assert!(rec_n() >= 2, "after a short inner write the state is replayed");
+                let c1 = rec(1);
+                assert!(c1.in_ptr == base && c1.in_len == off && c1.in_state == entry, "the replay scans exactly the consumed prefix from the entry state");
+                // the replay runs the scanner to exhaustion
+                let last = rec(rec_n() - 1);
+                assert!(last.in_ptr + last.k + last.n == base + off, "the replay exhausts the consumed prefix");
+                assert!(fin == last.out_state, "write carries the state the replay ended in");
+                let mut j = 2;
+                while j < REC_MAX {
+                    if j < rec_n() {
+                        let p = rec(j - 1);
+                        let c = rec(j);
+                        assert!(c.in_ptr == p.in_ptr + p.k + p.n && c.in_len == p.in_len - p.k - p.n && c.in_state == p.out_state, "the replay continues where the previous scan stopped");
+                    }
+                    j += 1;
                 }
             }
-            let mut out_b = [0u8; CAP];
-            let mut nb = 0;
-            for p in b.strip_next(&buf[n..len]) {
-                for x in p {
-                    out_b[nb] = *x;
-                    nb += 1;
-                }
+            None => {
+                assert!(matches!(&r, Err(e) if e.kind() == kind), "an inner error surfaces from write with its kind intact");
+                assert!(fin == entry && rec_n() == 1, "a failed write restores the entry state and delivers nothing more (retry is safe)");
             }
-            assert!(na == nb && out_a == out_b, "after write the unconsumed tail is stripped exactly as after a fresh pass over the consumed prefix");
-        }
-        Err(e) => {
-            assert!(mock.last_err == Some(e.kind()), "an inner error surfaces from write with its kind intact");
-            assert!(mock.len == 0, "a write call that fails has delivered nothing");
-            assert!(strip_state == StripBytes::new(), "a write call that fails leaves the strip state untouched (retry is safe)");
         }
     }
-    if mock.last_err.is_some() && mock.calls == 1 {
+    if w.calls >= 1 && w.outcomes[0].is_none() {
         assert!(r.is_err(), "an inner error is never turned into success");
     }
-    assert!(locks == 1, "write acquires the inner lock exactly once");
+    vk::vk_cover!(w.calls == 1 && matches!(w.outcomes[0], Some(k) if k < c0.n && k > 0), "short write inside a run");
     vk::vk_cover!(r.is_err(), "error path");
-    vk::vk_cover!(matches!(&r, Ok(n) if *n < len && *n > 0), "partial progress");
-    vk::vk_cover!(matches!(&r, Ok(n) if *n == len && len == N), "whole buffer");
+    vk::vk_cover!(c0.n == 0 && len > 0, "nothing visible");
 }
 
-#[cfg_attr(kani, kani::proof, kani::unwind(6))]
+#[cfg_attr(kani, kani::proof, kani::unwind(7), kani::stub(crate::adapter::strip::next_bytes, crate::adapter::verif_kani_strip_scan::next_bytes_recorder))]
 #[cfg_attr(not(kani), test)]
-fn stream_write_onecall_n3() {
-    write_onecall::<3>();
+fn stream_write_plumbing_interrupted() {
+    write_plumbing::<4>(ErrorKind::Interrupted);
 }
 
-#[cfg_attr(kani, kani::proof, kani::unwind(7))]
+#[cfg_attr(kani, kani::proof, kani::unwind(7), kani::stub(crate::adapter::strip::next_bytes, crate::adapter::verif_kani_strip_scan::next_bytes_recorder))]
 #[cfg_attr(not(kani), test)]
-fn stream_write_onecall_n4() {
-    write_onecall::<4>();
+fn stream_write_plumbing_wouldblock() {
+    write_plumbing::<4>(ErrorKind::WouldBlock);
 }
 
-/// the standard protocol (resubmit the tail, retry after Interrupted) delivers exactly the stripped input
-fn write_protocol<const N: usize>() {
-    let (buf, len) = any_buf::<N>();
-    let mut stream = StripStream::new(Mock::new(2));
-    let mut pos = 0;
-    let mut rounds = 0;
-    let mut fatal = false;
-    // every round either consumes >= 1 byte or burns one of the 2 faults: N + 3 rounds suffice
-    while pos < len && rounds < N + 3 {
-        match stream.write(&buf[pos..len]) {
-            Ok(0) => {
-                fatal = true; // WriteZero for the caller
-                break;
+#[cfg_attr(kani, kani::proof, kani::unwind(7), kani::stub(crate::adapter::strip::next_bytes, crate::adapter::verif_kani_strip_scan::next_bytes_recorder))]
+#[cfg_attr(not(kani), test)]
+fn stream_write_plumbing_other() {
+    write_plumbing::<4>(ErrorKind::Other);
+}
+
+/// an inner writer for write_all: records the slices it is given; fails at a nondeterministic call
+struct AllWriter {
+    calls: usize,
+    args: [(usize, usize); 6],
+    fail_at: usize,
+    kind: ErrorKind,
+}
+
+impl std::io::Write for AllWriter {
+    fn write(&mut self, buf: &[u8]) -> std::io::Result<usize> {
+        // write_all of the inner writer is overridden below: plain `write` is never used by strip::write_all
+        let _ = buf;
+        unreachable!("strip::write_all must delegate to the inner write_all")
+    }
+    fn write_all(&mut self, buf: &[u8]) -> std::io::Result<()> {
+        let i = self.calls;
+        self.calls += 1;
+        if i < 6 {
+            self.args[i] = (buf.as_ptr() as usize, buf.len());
+        }
+        if i == self.fail_at {
+            return Err(self.kind.into());
+        }
+        Ok(())
+    }
+    fn flush(&mut self) -> std::io::Result<()> {
+        Ok(())
+    }
+}
+
+/// write_all: every run the scanner yields goes to the inner write_all once, in order; the first
+/// inner error is returned with its kind and nothing is handed over after it
+#[cfg_attr(kani, kani::proof, kani::unwind(10), kani::stub(crate::adapter::strip::next_bytes, crate::adapter::verif_kani_strip_scan::next_bytes_recorder))]
+#[cfg_attr(not(kani), test)]
+fn stream_write_all_plumbing() {
+    const N: usize = 4;
+    let buf = [0u8; N];
+    let len = vk::any_usize_in(0, N);
+    let input = &buf[..len];
+    let base = input.as_ptr() as usize;
+    let entry = any_state();
+    let mut st = strip_bytes_in_state(entry);
+    let mut w = AllWriter { calls: 0, args: [(0, 0); 6], fail_at: vk::any_usize_in(0, 6), kind: ErrorKind::Other };
+    let r = write_all(&mut w, &mut st, input);
+    let fin = strip_bytes_state(&st);
+    let c0 = rec(0);
+    assert!(rec_n() >= 1 && c0.in_ptr == base && c0.in_len == len && c0.in_state == entry, "write_all scans the whole buffer from the carried state");
+    // scanner calls chain; every yielded run is handed over exactly once, in order
+    let mut j = 0;
+    let mut runs = 0;
+    while j < REC_MAX {
+        if j < rec_n() {
+            let c = rec(j);
+            if j > 0 {
+                let p = rec(j - 1);
+                assert!(c.in_ptr == p.in_ptr + p.k + p.n && c.in_len == p.in_len - p.k - p.n && c.in_state == p.out_state, "write_all continues the scan where it stopped");
             }
-            Ok(n) => {
-                assert!(n <= len - pos, "write reports a count no larger than the buffer");
-                pos += n;
-            }
-            Err(e) if e.kind() == std::io::ErrorKind::Interrupted => {}
-            Err(_) => {
-                fatal = true;
-                break;
+            if c.n > 0 {
+                assert!(runs < w.calls && w.args[runs] == (c.in_ptr + c.k, c.n), "write_all hands every visible run to the inner write_all once, in order");
+                runs += 1;
             }
         }
-        rounds += 1;
+        j += 1;
     }
-    let mock = stream.into_inner();
-    let mut want = [0u8; CAP];
-    let (cnt, _, _) = visible(State::Ground, 0, &buf, pos, &mut want);
-    assert!(log_is(&mock, &want, cnt), "the protocol delivered exactly the stripped form of what was consumed: nothing lost, duplicated, reordered or leaked");
-    if !fatal {
-        assert!(pos == len, "the protocol terminates with the whole input consumed");
-    }
-    vk::vk_cover!(!fatal && pos == len && mock.calls >= 3, "several rounds");
-}
-
-#[cfg_attr(kani, kani::proof, kani::unwind(8))]
-#[cfg_attr(not(kani), test)]
-fn stream_write_protocol_n3() {
-    write_protocol::<3>();
-}
-
-/// write_all: Ok => everything delivered; Err => the inner kind, and only a prefix delivered
-fn write_all_contract<const N: usize>() {
-    let (buf, len) = any_buf::<N>();
-    let mut stream = StripStream::new(Mock::new(2));
-    let r = stream.write_all(&buf[..len]);
-    let locks = stream.raw.locks;
-    let mock = stream.into_inner();
-    let mut want = [0u8; CAP];
-    let (cnt, _, _) = visible(State::Ground, 0, &buf, len, &mut want);
+    assert!(runs == w.calls, "write_all hands over nothing but the visible runs");
     match &r {
         Ok(()) => {
-            assert!(log_is(&mock, &want, cnt), "write_all delivered exactly the stripped form of the buffer");
+            let last = rec(rec_n() - 1);
+            assert!(last.n == 0 && last.in_ptr + last.k == base + len, "write_all succeeds only after the whole buffer was scanned");
+            assert!(w.fail_at >= w.calls, "write_all succeeds only if no inner write_all failed");
+            assert!(fin == last.out_state, "write_all carries the scanner's final state");
         }
         Err(e) => {
-            assert!(mock.last_fatal == Some(e.kind()), "an inner error surfaces from write_all with its kind intact");
-            assert!(mock.len <= cnt, "on error write_all delivered at most a prefix");
-            let mut i = 0;
-            while i < CAP {
-                if i < mock.len {
-                    assert!(mock.log[i] == want[i], "on error write_all delivered a prefix of the stripped form");
-                }
-                i += 1;
-            }
+            assert!(e.kind() == ErrorKind::Other && w.fail_at == w.calls - 1, "the first inner error surfaces from write_all with its kind intact, and nothing is handed over after it");
         }
     }
-    if mock.last_fatal.is_some() {
-        assert!(r.is_err(), "a fatal inner outcome is never turned into success by write_all");
+    if w.fail_at < w.calls {
+        assert!(r.is_err(), "an inner error is never turned into success by write_all");
     }
-    assert!(locks == 1, "write_all acquires the inner lock exactly once");
-    vk::vk_cover!(r.is_err(), "error path");
-    vk::vk_cover!(r.is_ok() && mock.calls >= 2, "several inner calls");
+    vk::vk_cover!(r.is_err() && w.calls == 2, "second run fails");
+    vk::vk_cover!(r.is_ok() && w.calls == 2, "two runs delivered");
 }
 
-#[cfg_attr(kani, kani::proof, kani::unwind(8))]
-#[cfg_attr(not(kani), test)]
-fn stream_write_all_n3() {
-    write_all_contract::<3>();
+struct FailingDisplay;
+impl std::fmt::Display for FailingDisplay {
+    fn fmt(&self, _: &mut std::fmt::Formatter<'_>) -> std::fmt::Result {
+        Err(std::fmt::Error)
+    }
 }
 
-/// write_vectored == write of the first non-empty buffer; flush forwards
-#[cfg_attr(kani, kani::proof, kani::unwind(6))]
+/// formatted writes: each fragment goes through write_all in order; an inner error is saved across
+/// the fmt::Write boundary and returned with its kind; a formatter error without inner error is Other
+#[cfg_attr(kani, kani::proof, kani::unwind(8), kani::stub(crate::adapter::strip::next_bytes, crate::adapter::verif_kani_strip_scan::next_bytes_recorder))]
 #[cfg_attr(not(kani), test)]
-fn stream_write_vectored_n2() {
-    let (b1, l1) = any_buf::<2>();
-    let (b2, l2) = any_buf::<2>();
-    let mut stream = StripStream::new(Mock::new(0));
-    let bufs = [std::io::IoSlice::new(&b1[..l1]), std::io::IoSlice::new(&b2[..l2])];
-    let r = stream.write_vectored(&bufs);
-    let _ = stream.flush();
-    let mock = stream.into_inner();
-    let first: (&[u8; 2], usize) = if l1 > 0 { (&b1, l1) } else { (&b2, l2) };
-    let mut reference = StripStream::new(Mock::new(0));
-    let rr = reference.write(&first.0[..first.1]);
-    let rmock = reference.into_inner();
-    assert!(r.is_ok() && rr.is_ok() && r.unwrap() == rr.unwrap(), "write_vectored reports what write of the first non-empty buffer reports");
-    assert!(mock.len == rmock.len && mock.log == rmock.log, "write_vectored delivers what write of the first non-empty buffer delivers");
-    assert!(mock.flushes == 1, "flush reaches the inner writer");
-}
-
-/// formatted writes: every fragment stripped and delivered, inner errors surface with their kind
-#[cfg_attr(kani, kani::proof, kani::unwind(8))]
-#[cfg_attr(not(kani), test)]
-fn stream_write_fmt_two_fragments() {
-    let (b1, _) = any_buf::<2>();
-    let (b2, _) = any_buf::<2>();
-    vk::assume(b1[0] < 0x80 && b1[1] < 0x80 && b2[0] < 0x80 && b2[1] < 0x80);
-    let s1 = core::str::from_utf8(&b1).unwrap();
-    let s2 = core::str::from_utf8(&b2).unwrap();
-    let mut stream = StripStream::new(Mock::new(1));
-    let r = stream.write_fmt(format_args!("{}{}", s1, s2));
-    let locks = stream.raw.locks;
-    let mock = stream.into_inner();
-    let all = [b1[0], b1[1], b2[0], b2[1]];
-    let mut want = [0u8; CAP];
-    let (cnt, _, _) = visible(State::Ground, 0, &all, 4, &mut want);
+fn stream_write_fmt_plumbing() {
+    let entry = any_state();
+    let mut st = strip_bytes_in_state(entry);
+    let mut w = AllWriter { calls: 0, args: [(0, 0); 6], fail_at: vk::any_usize_in(0, 6), kind: ErrorKind::WouldBlock };
+    // two literal pieces around an argument-free escape `{{`: fmt::write calls write_str per piece
+    // (formatting *arguments* pulls in core::fmt's padding machinery, which CBMC does not finish)
+    let (f1, f2) = ("ab", "c");
+    let r = write_fmt(&mut w, &mut st, format_args!("{f1}{f2}"));
+    // scanned input: fragment 1 entirely, then fragment 2 entirely (unless an error stopped it)
+    let c0 = rec(0);
+    assert!(rec_n() >= 1 && c0.in_ptr == f1.as_ptr() as usize && c0.in_len == 2 && c0.in_state == entry, "write_fmt strips the first fragment from the carried state");
     match &r {
-        Ok(()) => assert!(log_is(&mock, &want, cnt), "write_fmt delivered exactly the stripped form of all fragments"),
-        Err(e) => assert!(mock.last_fatal == Some(e.kind()), "an inner error surfaces from write_fmt with its kind intact"),
+        Ok(()) => {
+            assert!(w.fail_at >= w.calls, "write_fmt succeeds only if no inner write failed");
+            let last = rec(rec_n() - 1);
+            assert!(last.in_ptr + last.k + last.n == f2.as_ptr() as usize + 1, "write_fmt succeeds only after the last fragment was scanned to its end");
+            assert!(strip_bytes_state(&st) == last.out_state, "write_fmt carries the scanner's final state");
+        }
+        Err(e) => {
+            assert!(e.kind() == ErrorKind::WouldBlock && w.fail_at == w.calls - 1, "an inner error surfaces from write_fmt with its kind intact, and nothing is handed over after it");
+        }
     }
-    if mock.last_fatal.is_some() {
-        assert!(r.is_err(), "a fatal inner outcome is never turned into success by write_fmt");
+    if w.fail_at < w.calls {
+        assert!(r.is_err(), "an inner error is never turned into success by write_fmt");
     }
-    assert!(locks == 1, "write_fmt acquires the inner lock exactly once for all fragments");
     vk::vk_cover!(r.is_err(), "error path");
+    vk::vk_cover!(r.is_ok() && w.calls >= 2, "both fragments delivered");
+}
+
+#[cfg_attr(kani, kani::proof, kani::unwind(8), kani::stub(crate::adapter::strip::next_bytes, crate::adapter::verif_kani_strip_scan::next_bytes_recorder))]
+#[cfg_attr(not(kani), test)]
+fn stream_write_fmt_formatter_error() {
+    let mut st = strip_bytes_in_state(State::Ground);
+    let mut w = AllWriter { calls: 0, args: [(0, 0); 6], fail_at: 99, kind: ErrorKind::WouldBlock };
+    let r = write_fmt(&mut w, &mut st, format_args!("{}", FailingDisplay));
+    assert!(matches!(&r, Err(e) if e.kind() == ErrorKind::Other), "a formatter error without inner error is reported as Other, never as success");
+}
+
+/// StripStream's Write impl forwards each method once, through one lock acquisition
+#[cfg_attr(kani, kani::proof, kani::unwind(8), kani::stub(crate::adapter::strip::next_bytes, crate::adapter::verif_kani_strip_scan::next_bytes_recorder))]
+#[cfg_attr(not(kani), test)]
+fn stream_methods_forward() {
+    use crate::stream::verif_kani_mock::Mock;
+    let which = vk::any_u8_in(0, 3);
+    let mut s = StripStream::new(Mock::new(0));
+    let data: &[u8] = b"ab";
+    if which == 0 {
+        let r = s.write(data);
+        assert!(r.is_ok(), "write succeeds on a good writer");
+    } else if which == 1 {
+        let empty: &[u8] = b"";
+        let bufs = [std::io::IoSlice::new(empty), std::io::IoSlice::new(data)];
+        let r = s.write_vectored(&bufs);
+        assert!(r.is_ok(), "write_vectored succeeds on a good writer");
+        assert!(rec(0).in_ptr == data.as_ptr() as usize && rec(0).in_len == 2, "write_vectored writes the first non-empty buffer");
+    } else if which == 2 {
+        assert!(s.write_all(data).is_ok(), "write_all succeeds on a good writer");
+    } else {
+        assert!(s.flush().is_ok(), "flush succeeds on a good writer");
+    }
+    let m = s.into_inner();
+    assert!(m.locks == 1, "every Write method of StripStream acquires the inner lock exactly once");
+    assert!(m.flushes == if which == 3 { 1 } else { 0 }, "flush reaches the inner writer exactly when asked");
 }
